@@ -267,6 +267,16 @@ def check(ctx, facts, cfg, clause="A3"):
                 edge = bool_edge(b, sb, (is_all and not neg) or (not is_all and neg))
                 if over_chars and edge_dominates(b, sb, edge, bi) and is_all:
                     clos = strip_refs(e[2][1])
+                    if clos[0] == "const" and "fn" in clos[1] and (clos[1]["fn"].get("resolved") or clos[1]["fn"]).get("local"):
+                        # `.all(is_decimal_literal_char)`: a private predicate function handed in by name
+                        fb_ = facts.body((clos[1]["fn"].get("resolved") or clos[1]["fn"])["key"])
+                        ivs_ = predicate_set(fb_, 1)
+                        if ivs_ is not None and sum(hi_ - lo_ + 1 for lo_, hi_ in ivs_) <= 4096:
+                            alphabet = {chr(c_) for lo_, hi_ in ivs_ for c_ in range(lo_, hi_ + 1)}
+                        elif ivs_ is not None:
+                            alphabet = ("large", fmt_set(ivs_[:6]))
+                        gate_ok = True
+                        gate_at = (b, sb)
                     if clos[0] == "agg" and clos[1].get("agg") == "Closure":
                         # the set the closure accepts, read on its path summaries (any spelling of the test); the
                         # older syntactic reading only when that does not read it
